@@ -3,15 +3,6 @@ import FatVerif.Model.Api
 /-! C13, part 5: a whole read-only session (induction over `Session.step`). -/
 namespace FatVerif
 
-theorem run_bind_cases {α β} {p : Prog β} {k : β → Prog α} {d : Dev} {r d'} (h : run (Prog.bind p k) d = (r, d')) :
-    (∃ b d1, run p d = (.ok b, d1) ∧ run (k b) d1 = (r, d')) ∨ (∃ e, run p d = (.error e, d') ∧ r = .error e) := by
-  simp only [run] at h
-  rcases hq : run p d with ⟨rp, d1⟩
-  rw [hq] at h
-  cases rp with
-  | ok b => exact Or.inl ⟨b, d1, rfl, h⟩
-  | error e => simp only at h; cases h; exact Or.inr ⟨e, rfl, rfl⟩
-
 /-- `stats`, every outcome: the mounted state is unchanged or took the documented step -/
 theorem stats_fs (d : Dev) {r d'} (hr : run stats d = (r, d')) : StatsStep d.fs d'.fs := by
   unfold stats at hr
